@@ -4,6 +4,7 @@ import (
 	"bufio"
 	"fmt"
 	"io"
+	"os"
 	"os/exec"
 	"strconv"
 	"strings"
@@ -447,7 +448,6 @@ func evalValue(v interface{}) (uint64, bool) {
 	return 0, false
 }
 
-
 // Portfolio tries several solver processes in order until one gives a definite answer.
 type Portfolio struct {
 	Solvers []*Solver
@@ -475,8 +475,8 @@ func (p *Portfolio) Close() {
 }
 
 func (p *Portfolio) SetLog(w io.Writer) {
-	if len(p.Solvers) > 0 {
-		p.Solvers[0].Log = w
+	for _, s := range p.Solvers {
+		s.Log = w
 	}
 }
 
@@ -492,9 +492,10 @@ func (p *Portfolio) Check(asserts []*Term, modelVars []*Term) (SatResult, map[st
 			hard = a.NMul
 		}
 	}
-	if hard >= 8 && len(p.Solvers) >= 2 && p.Solvers[1].Kind == "cvc5-int" {
-		// decimal kernels (long multiply-by-constant chains): the integer encoding first
-		order = append([]*Solver{p.Solvers[1], p.Solvers[0]}, p.Solvers[2:]...)
+	if hard >= 8 && len(p.Solvers) >= 4 && p.Solvers[1].Kind == "cvc5-int" {
+		// decimal kernels (long multiply-by-constant chains): the integer encoding first; short limits before long ones
+		order = []*Solver{p.Solvers[1], p.Solvers[0], p.Solvers[3], p.Solvers[2]}
+		order = append(order, p.Solvers[4:]...)
 	}
 	for _, s := range order {
 		r, m, err := s.Check(asserts, modelVars)
@@ -509,6 +510,19 @@ func (p *Portfolio) Check(asserts []*Term, modelVars []*Term) (SatResult, map[st
 		}
 	}
 	dt := time.Since(t0)
+	if dt > time.Second && os.Getenv("SYMGO_SLOWQ") != "" {
+		n := 0
+		for _, a := range asserts {
+			n += len(a.vars)
+		}
+		fmt.Fprintf(os.Stderr, "slow query %.1fs asserts=%d vars=%d res=%v byKind=%v\n", dt.Seconds(), len(asserts), n, res, p.ByKind)
+		if f, err := os.Create(fmt.Sprintf("/tmp/slowq-%d.txt", p.Stats.Queries)); err == nil {
+			for _, a := range asserts {
+				fmt.Fprintln(f, a.String())
+			}
+			f.Close()
+		}
+	}
 	p.Stats.Queries++
 	p.Stats.Time += dt
 	if dt > p.Stats.MaxQuery {
